@@ -64,6 +64,20 @@ def has_stable_exit(impl_line):
 
 # ---- matcher -------------------------------------------------------------------------------------
 
+def coarse_guarded(o):
+    """guarded arithmetic whose comparison tolerance (half a unit of the last *precision* digit) is at least 0.005 votes: precision <= 2 with
+    guard digits - the configurations in which builtin min()/max() over Guarded's non-transitive comparison was seen to pick a reference
+    that is not the extreme (finding G2)"""
+    try:
+        if o.get('arithmetic') != 'guarded' or 'precision' not in o:
+            return False
+        p = int(o['precision'])
+        g = int(o['guard']) if o.get('guard') is not None else p      # Guarded.initialize: guard defaults to the precision
+        return g > 0 and p <= 2
+    except (TypeError, ValueError):
+        return False
+
+
 def match(prop, r, signature):
     """r: campaign Result; signature: 'CRASH <Exc>' or an oracle key that is false on the implementation's record.
     Returns the id of the listed finding that explains it, or None."""
@@ -76,6 +90,8 @@ def match(prop, r, signature):
     if cls is not None:
         if signature in ('CRASH ZeroDivisionError', 'CRASH AssertionError', 'CRASH IndexError', 'CRASH Hang'):
             return 'M1'
-        if signature in ('C08k', 'C09', 'C01', 'C04c', 'C05', 'EXC'):
+        if signature in ('C08k', 'C09', 'C01', 'C04c', 'C05', 'EXC', 'EXCQ'):
             return 'M2'
+    if signature == 'EXC' and prop == 'C07' and coarse_guarded(o) and o['rule'] not in ('meek', 'warren', 'meek-prf'):
+        return 'G2'
     return None
